@@ -174,6 +174,17 @@ fn default_entries() -> Vec<Entry> {
 		f("rootx/index.html", 1008), f("rootx/only.txt.br", 1009), f("rootx/gz.txt.gz", 1010),
 		d("root-private"), f("root-private/secret.txt", 1011), f("root-private/index.html", 1012), f("root.bak", 1013),
 		d("root.d"), f("root.d/index.html.br", 1014), d("root2x"), f("root2x/a.txt", 1015),
+		// roots without index.html / with only a precompressed index, one level deeper (`site/…`), and outside
+		// siblings whose names are DERIVED from the root's (and its parent's) name
+		d("site"), d("site/noidx"), f("site/noidx/a.txt", 60), d("site/noidx/sub"), f("site/noidx/sub/x.txt", 61), f("site/noidx/sub.html", 62),
+		d("site/noidx/deep"), d("site/noidx/deep/er"), f("site/noidx/deep/er.html", 63), f("site/noidx/deep.html", 64), f("site/noidx/deep/er/y.txt", 68),
+		f("site/noidx.html", 1040), f("site/noidx.htm", 1041), f("site/noidx.br", 1042), f("site/noidx.gz", 1043), f("site/noidx.html.br", 1044),
+		f("site/noidx.html.gz", 1045), f("site/noidx.tar", 1046), f("site/noidx~", 1047), d("site/noidx.bak"), f("site/noidx.bak/index.html", 1048),
+		f("site.html", 1049), f("site.br", 1050), f("site/index.html", 1051), f("site/index.html.html", 1061), f("site/.html", 1062),
+		d("site/bridx"), f("site/bridx/index.html.br", 65), f("site/bridx/a.txt", 66), f("site/bridx.html", 1052), f("site/bridx.html.br", 1063),
+		d("site/gzidx"), f("site/gzidx/index.html.gz", 67), f("site/gzidx.html", 1053), f("site/gzidx.gz", 1064),
+		f("root.html", 1054), f("root.htm", 1055), f("root.html.br", 1056), f("root.html.gz", 1057), f("root.tar", 1058), f("root~", 1059),
+		d("root.old"), f("root.old/index.html", 1060), f("root/nodex.html", 26), f("root/sub.html", 27),
 		// precompressed-only files next to / above the web root (no plain sibling)
 		f("backup.tar.gz", 1020), f("sib/only.js.br", 1021), f("secret2.txt.gz", 1022), f("sib/page.html.br", 1023), f("sib/page.html.gz", 1024),
 		d("root2"), f("root2/index.html", 30), f("root2/a.txt", 31), f("root2/r2.txt", 32),
@@ -606,6 +617,34 @@ fn judge(w: &World, target: &str, r: &Resp) -> Option<(&'static str, String)> {
 			_ => {}
 		}
 	}
+	// (1b) "a path that leaves the root yields 404", for every source kind: a request whose lexically
+	// normalised path (after the URL prefix) climbs above the root – more `..` than depth – must not be
+	// answered with content; for an archive the same holds for an absolute rest (`//…` after the prefix)
+	if matches!(r, Resp::Ok(_)) {
+		let path = uri_path(target);
+		let path = if path.starts_with('/') { path.to_string() } else { format!("/{path}") };
+		let (mut matching, mut escaping) = (0, 0);
+		for s in &w.sources {
+			if let Some(rem) = path.strip_prefix(&norm_prefix(&s.prefix)) {
+				matching += 1;
+				let mut depth: i64 = 0;
+				let mut esc = false;
+				for seg in rem.split('/') {
+					match seg {
+						"" | "." => {}
+						".." => { depth -= 1; if depth < 0 { esc = true; break; } }
+						_ => depth += 1,
+					}
+				}
+				if esc || (rem.starts_with("//") && matches!(s.backend, Backend::Tar(_))) {
+					escaping += 1;
+				}
+			}
+		}
+		if matching > 0 && escaping == matching {
+			return Some(("escape-not-404", format!("the request path leaves the root of every source it addresses, but the answer is {}", r.show())));
+		}
+	}
 	// (2)+(3) single folder source: compare with the operating system's own resolution
 	if w.sources.len() == 1 {
 		if let Backend::Folder(root) = &w.sources[0].backend {
@@ -936,7 +975,7 @@ fn check_targets(out: &mut Out, base: &Path, server: &Server, entries: &[Entry],
 pub fn run(args: &Args) {
 	quiet_panics();
 	let mut out = Out::new(&args.out);
-	out.rule = "raw HTTP/1.1 GET requests (target bytes sent verbatim) against `versatiles serve` with folder / tar static sources, with and without URL prefix, and a multi-source configuration; fixture with canary files outside the roots; targets: all sequences of depth ≤3 (thorough ≤4) over a small segment alphabet (names, '.', '..', empty, %2e%2e, …) plus seeded random sequences of depth ≤6 over a large alphabet, plus absolute-path targets (//, /// after the URL prefix) at every sibling whose path string extends a root's path string (rootx/…, root.br, root-private/…), plus every file outside a root (canaries, precompressed-only .br/.gz siblings) via '..' and absolute forms with and without its extension; requests carry no Accept-Encoding or one of gzip / br / 'gzip, br' / identity (all five for the fixed list and the outside-file targets, one seeded variant for the bulk); plus oracle-only probes (HEAD vs GET on the fixed list, POST/PUT/DELETE/OPTIONS/PATCH, targets of 5-40 kB, bytes hyper rejects, absolute-form and authority-form targets, the routed prefixes /status and /tiles/…), a second phase on the same server after files were created / removed / replaced (tar archives rewritten on disk), tar archives wrapped as .tar / .tar.gz / .tar.br / .tar.br.gz, non-regular tar entries, overlapping and repeated URL prefixes in both source orders, --fast --disable-api, empty and 2 MiB files, a symlink fixture; plus guided walks (existing files, directories and archive members perturbed by '.', empty, 'x/..', '..', partially encoded segments, dropped .br/.gz extensions) with extra leading slashes, absolute-path injections, trailing slash, ?query/#fragment; non-trivial = the path contains a '..', '.', empty, percent-encoded or backslash segment or an absolute form; distinct by case text".into();
+	out.rule = "raw HTTP/1.1 GET requests (target bytes sent verbatim) against `versatiles serve` with folder / tar static sources, with and without URL prefix, and a multi-source configuration; fixture with canary files outside the roots (incl. siblings named after the root: <root>.html/.htm/.br/.gz/.html.br/.tar/~/.bak/, <parent>.html) and roots with / without index.html / with only index.html.br|.gz; directory-style requests at every level of every root; targets: all sequences of depth ≤3 (thorough ≤4) over a small segment alphabet (names, '.', '..', empty, %2e%2e, …) plus seeded random sequences of depth ≤6 over a large alphabet, plus absolute-path targets (//, /// after the URL prefix) at every sibling whose path string extends a root's path string (rootx/…, root.br, root-private/…), plus every file outside a root (canaries, precompressed-only .br/.gz siblings) via '..' and absolute forms with and without its extension; requests carry no Accept-Encoding or one of gzip / br / 'gzip, br' / identity (all five for the fixed list and the outside-file targets, one seeded variant for the bulk); plus oracle-only probes (HEAD vs GET on the fixed list, POST/PUT/DELETE/OPTIONS/PATCH, targets of 5-40 kB, bytes hyper rejects, absolute-form and authority-form targets, the routed prefixes /status and /tiles/…), a second phase on the same server after files were created / removed / replaced (tar archives rewritten on disk), tar archives wrapped as .tar / .tar.gz / .tar.br / .tar.br.gz, non-regular tar entries, overlapping and repeated URL prefixes in both source orders, --fast --disable-api, empty and 2 MiB files, a symlink fixture; plus guided walks (existing files, directories and archive members perturbed by '.', empty, 'x/..', '..', partially encoded segments, dropped .br/.gz extensions) with extra leading slashes, absolute-path injections, trailing slash, ?query/#fragment; non-trivial = the path contains a '..', '.', empty, percent-encoded or backslash segment or an absolute form; distinct by case text".into();
 	std::fs::create_dir_all(&args.out).unwrap();
 	let base = std::fs::canonicalize(&args.out).unwrap().join("w");
 	let base_s = base.display().to_string();
@@ -991,6 +1030,11 @@ pub fn run(args: &Args) {
 	configs.push(vec![folder("assets/", "root"), tar("assets")]);
 	configs.push(vec![folder("", "root")]); // with --fast --disable-api (see flags below)
 	let flags_cfg = configs.len() - 1;
+	// roots without an index.html, with only index.html.br / index.html.gz, with and without URL prefix
+	configs.push(vec![folder("", "site/noidx")]);
+	configs.push(vec![folder("/assets", "site/noidx")]);
+	configs.push(vec![folder("", "site/bridx")]);
+	configs.push(vec![folder("/p", "site/gzidx"), tar("")]);
 	if args.thorough() {
 		configs.push(vec![folder("pre/fix/", "root")]);
 		configs.push(vec![tar("assets"), folder("assets", "root2")]);
@@ -1147,6 +1191,29 @@ pub fn run(args: &Args) {
 				}
 			}
 		}
+		// directory-style requests at every level of every folder root (and the root itself)
+		for s in sources {
+			if let Backend::Folder(r) = &s.backend {
+				let pfx = if s.prefix.is_empty() { String::new() } else { norm_prefix(&s.prefix).trim_end_matches('/').to_string() };
+				let inside = format!("{r}/");
+				let mut dirs: Vec<String> = vec![String::new()];
+				for e in &entries {
+					if let Entry::Dir(p) = e {
+						if let Some(rel) = p.strip_prefix(&inside) { dirs.push(format!("/{rel}")); }
+					}
+				}
+				for d in &dirs {
+					for form in ["", "/", "/index.html", "/.", "/./", "//", "/index.html/", ".html", "/index.html.br", "/../index.html", "/index.htm", "/index.html.html"] {
+						critical.push(format!("{pfx}{d}{form}"));
+					}
+					if let Some((par, last)) = d.rsplit_once('/') {
+						critical.push(format!("{pfx}{par}/{last}.html"));
+						critical.push(format!("{pfx}{d}/../{last}.html"));
+					}
+				}
+				if !pfx.is_empty() { critical.push(pfx.clone()); }
+			}
+		}
 		// Accept-Encoding: the fixed list and the outside-file targets are sent with every header
 		// variant, the bulk with one seeded variant each
 		let n_fixed = fixed.len();
@@ -1162,10 +1229,20 @@ pub fn run(args: &Args) {
 				}
 			}
 		}
+		critical.retain(|t| t.starts_with('/'));
+		critical.sort();
+		critical.dedup();
 		for (i, t) in critical.iter().enumerate() {
+			// without header, with one core variant in rotation (every 5th target: all core variants), one rare variant on every 3rd
 			reqs.push(t.clone());
-			reqs.extend(ACCEPTS[..ACCEPTS_CORE].iter().map(|a| with_accept(t, Some(a))));
-			reqs.push(with_accept(t, Some(ACCEPTS[ACCEPTS_CORE + i % (ACCEPTS.len() - ACCEPTS_CORE)])));
+			if i % 5 == 0 {
+				reqs.extend(ACCEPTS[..ACCEPTS_CORE].iter().map(|a| with_accept(t, Some(a))));
+			} else {
+				reqs.push(with_accept(t, Some(ACCEPTS[i % ACCEPTS_CORE])));
+			}
+			if i % 3 == 0 {
+				reqs.push(with_accept(t, Some(ACCEPTS[ACCEPTS_CORE + (i / 3) % (ACCEPTS.len() - ACCEPTS_CORE)])));
+			}
 		}
 		let targets = reqs;
 		// ---- oracle-only probes
